@@ -90,6 +90,9 @@ def run(chk):
         dcases.append({"ops": ops, "variant": rng.choice(S.VARIANTS), "arch": rng.choice(S.ARCHES_OK), "base": base})
 
     def oracle_d(c, r):
+        if r[0] in ("dump-changed-manifest", "dump-not-repeatable"):
+            return "dump_for_tree(%r, %r, base=%r) is not a read-only, repeatable operation on the manifest: %s" % (
+                c["variant"], c["arch"], c["base"], core.canon(r)[:400])
         if r[0] == "ok":
             root = c["base"].rstrip("/") + "/"
             for e in r[1]:
@@ -100,7 +103,7 @@ def run(chk):
 
     core.differential(chk, "ops_manifests:dump_for_tree", dcases, "dump_for_tree",
                       model_cases=[[c["ops"], c["variant"], c["arch"], c["base"]] for c in dcases],
-                      impl_fn="impl_dump_for_tree", nontrivial=lambda c, r: r[0] == "ok" and len(r[1]) >= 1)
+                      impl_fn="impl_dump_for_tree", nontrivial=lambda c, r: r[0] == "ok" and len(r[1]) >= 1, oracle=oracle_d)
     rcases = [{"path": p, "root": r} for p in S.XPATHS + ["Server/x86_64/os", "Server/x86_64/os/", "/x/y", "x//y"]
               for r in ["Server/x86_64/os", "Server/x86_64/os/", "Server/x86_64/os///", "Server", "", "/", "//", "Server/x86_64/o", "x", "/x"]]
     def oracle_rel(c, r):
